@@ -574,15 +574,12 @@ Proof.
     assert (H : forall names acc, cn_ext x (fst acc) ->
       cn_ext x (fst (fold_left (fun (acc : cnode * option N) nm =>
                    let '(x0, r0) := acc in
-                   match r0 with
+                   match db_id_of (cn_node x0) nm with
+                   | Some d => (log_append x0 (mkRec id marker_snapshot d 3), r0)
                    | None => (x0, None)
-                   | Some _ => match db_id_of (cn_node x0) nm with
-                               | Some d => (log_append x0 (mkRec id marker_snapshot d 3), Some id)
-                               | None => (x0, None)
-                               end
                    end) names acc))).
     { induction names as [|nm names IH]; intros [x0 r0] Hacc; cbn [fold_left]; [exact Hacc|].
-      apply IH. cbn [fst] in Hacc. destruct r0; cbn [fst]; [|exact Hacc].
+      apply IH. cbn [fst] in Hacc.
       destruct (db_id_of (cn_node x0) nm); cbn [fst]; [|exact Hacc].
       apply (cn_ext_trans _ _ _ Hacc). apply log_append_ext. cbn [r_op]. lia. }
     apply H. apply cn_ext_refl.
